@@ -271,6 +271,72 @@ class OneHotMapping(FragmentContract):
         return out + type(self).table(env, mp, b.alpha_idxs.shape[0], b.ignore_idxs.shape[0], O.forall)
 
 
+class ReverseComplementTensor(FragmentContract):
+    """C15 (tensor form of reverse_complement, its last statement): with idxs[c] the row of the complement of letter c,
+    the result is out[c, l] = seq[idxs[c], L - 1 - l] for every alphabet size and length, the input is not written;
+    lemma over this contract: when the index map is an involution (idxs[idxs[c]] = c, i.e. the complement map is),
+    applying the operation twice gives back the input."""
+    qualname = 'tangermeme.utils.reverse_complement'
+    props = ('C15',)
+    key = 'tangermeme.utils.reverse_complement#tensor'
+    stmt_block = ('seq_rc = torch.flip(seq', 1)
+
+    def scopes(self, cfg):
+        return [{'default': 2}, {'default': 3}]
+
+    def make_env(self, cfg, A):
+        from vf.values import StackList
+        Ad, L = A.dim('A', 1), A.dim('L', 0)
+        seq = A.tensor('seq', 2, 'real', shape=[Ad, L])
+        ix = A.tensor('ix', 1, 'int', shape=[Ad])
+        A.assume(O.forall_hyp([Ad], lambda c: And(ix[c] >= 0, ix[c] < Ad)))
+        return dict(seq=seq, idxs=StackList(Ad, [ix]), _ix=ix)
+
+    @staticmethod
+    def rc(X, ix):
+        Ad, L = X.shape
+        return spec_tensor([Ad, L], lambda c, l: X.elem(ix.elem(c), L - 1 - l), 'real')
+
+    def post_env(self, b, a, outcome, cfg):
+        out = [('no-exception', not outcome.startswith('raise'))]
+        if not out[0][1]:
+            return out
+        r = a.seq_rc
+        out.append(('is-tensor', isinstance(r, Tn)))
+        if not out[-1][1]:
+            return out
+        spec = self.rc(b.seq, b._ix)
+        out.extend(same(r, spec, 'out[c, l] = seq[idxs[c], L-1-l]'))
+        out.extend(same(a.seq, b.seq, 'seq-unwritten'))
+        twice = self.rc(spec, b._ix)
+        Ad, L = b.seq.shape
+        out.append(('lemma: twice is the identity when idxs is an involution',
+                    O.forall([Ad, L], lambda c, l: Implies(O.eq(b._ix.elem(b._ix.elem(c)), c), O.eq(twice.elem(c, l), b.seq.elem(c, l))))))
+        return out
+
+    def replay_fragment(self, cfg, st):
+        """the real whole function with a complement map that realises the index list"""
+        import torch
+        from tangermeme.utils import reverse_complement
+        ix = st.get('_ix')
+        shp = st.get('seq.shape')
+        if not ix or not shp or shp[0] != len(ix) or shp[0] > 20 or shp[1] > 64:
+            return []
+        Ad, L = shp
+        ix = [abs(int(v)) % Ad for v in ix]
+        letters = [chr(65 + i) for i in range(Ad)]
+        cmap = {letters[c]: letters[ix[c]] for c in range(Ad)}
+        X = torch.arange(Ad * L, dtype=torch.float64).reshape(Ad, L)
+        try:
+            out = reverse_complement(X, complement_map=cmap)
+        except Exception as e:
+            return ['reverse_complement raised %s on a (%d, %d) tensor with complement_map=%s' % (type(e).__name__, Ad, L, cmap)]
+        exp = torch.stack([X[ix[c]].flip(0) for c in range(Ad)]) if L > 0 else X.clone()
+        if tuple(out.shape) != tuple(exp.shape) or not torch.equal(out, exp):
+            return ['reverse_complement(arange(%d*%d).reshape, complement_map=%s) = %s, expected %s' % (Ad, L, cmap, out.tolist(), exp.tolist())]
+        return []
+
+
 def register(world):
     from contracts.utils_c import ValidateInput
     if 'tangermeme.utils._validate_input' not in world.contracts:
@@ -279,3 +345,4 @@ def register(world):
     world.register(Unchunk())
     world.register(FastOneHotEncode())
     world.register_fragment(OneHotMapping())
+    world.register_fragment(ReverseComplementTensor())
